@@ -6,6 +6,7 @@ package scen
 import (
 	"encoding/json"
 	"fmt"
+	"strings"
 	"time"
 
 	ap "github.com/go-ap/activitypub"
@@ -107,6 +108,21 @@ func Scalars(k int) *ap.Object {
 		Location:  &ap.Place{Type: ap.PlaceType, Units: fmt.Sprintf("unit%d", k), Latitude: float64(k) + 0.5}}
 }
 
+// LongTexts is a value whose natural-language texts are n, 3n/2 and 2n bytes long (single untagged, map of two); k selects contents.
+func LongTexts(k, n int) *ap.Object {
+	text := func(m int, seed string) string {
+		unit := fmt.Sprintf("%s-%d \"q\" é€😀\n", seed, k)
+		return strings.Repeat(unit, m/len(unit)+1)[:m/len(unit)*len(unit)]
+	}
+	if n < 1024 {
+		// schedule explorer: one long text (every byte of it is a yield point of the escaping loop) and a short map
+		return &ap.Object{ID: ap.IRI(fmt.Sprintf("https://example.com/long/%d", k)), Type: ap.ArticleType,
+			Content: nlv("-", text(n, "content")), Name: nlv("en", fmt.Sprintf("n%d", k), "fr", text(n, "nom"))}
+	}
+	return &ap.Object{ID: ap.IRI(fmt.Sprintf("https://example.com/long/%d", k)), Type: ap.ArticleType,
+		Content: nlv("-", text(n, "content")), Name: nlv("en", text(n*3/2, "name"), "fr", text(n, "nom")), Summary: nlv("-", text(2*n, "summary"))}
+}
+
 // Values are the shared values of the scenarios.
 func Values() map[string]func() ap.Item {
 	return map[string]func() ap.Item{
@@ -203,7 +219,7 @@ type Scenario struct {
 }
 
 // Count is the number of scenarios.
-const Count = 9
+const Count = 10
 
 type sizes struct {
 	note       func() *ap.Object
@@ -212,6 +228,7 @@ type sizes struct {
 	outbox     func() *ap.OrderedCollection
 	docA, docB []byte
 	gobA, gobB []byte
+	longN      int
 }
 
 var big, small sizes
@@ -220,8 +237,10 @@ func init() {
 	for _, z := range []*sizes{&big, &small} {
 		if z == &big {
 			z.note, z.person, z.create, z.outbox = Note, Person, Create, Outbox
+			z.longN = 16 << 10
 		} else {
 			z.note, z.person, z.create, z.outbox = SmallNote, SmallPerson, SmallCreate, SmallOutbox
+			z.longN = 270
 		}
 		z.docA, _ = ap.MarshalJSON(z.note())
 		z.docB, _ = ap.MarshalJSON(z.create())
@@ -263,6 +282,10 @@ func get(i int, z *sizes) Scenario {
 	case 7:
 		v := Create()
 		return mk("S7 MarshalJSON(create) || UnmarshalJSON(docA) || ItemsEqual(create, create)", []ap.Item{v}, MarshalJSON(v), UnmarshalJSON(docA), ItemsEqual(v, v))
+	case 9:
+		// texts long enough for any size-triggered path (pooled or chunked buffers), different in the two threads
+		v, w := LongTexts(1, z.longN), LongTexts(2, z.longN)
+		return mk("S9 MarshalJSON(long texts 1) || MarshalJSON(long texts 2)", []ap.Item{v, w}, MarshalJSON(v), MarshalJSON(w))
 	default:
 		// two DIFFERENT values with scalar properties (instants, durations, string properties, IRI lists): a scratch area shared
 		// between the two encoders shows up as a result that differs from the sequential one
